@@ -229,6 +229,15 @@ fn single(opts: &Opts, case: &Case, entry: &Entry, sink: &mut Sink) {
                     sink.nontrivial += 1;
                 }
                 sink.sample(|| json!({"grammar": case.text, "input": input, "reference": exp_pos, "real": s}));
+                if prop == "C07" && case.note.contains("closed-form") {
+                    match closed_form_leftrec(&case.grammar, input) {
+                        Some(Some((cend, ctree))) if cend == *end && ctree == exp_nopos => sink.bump("closed_form_checks", 1),
+                        other => {
+                            emit(json!({"k":"machinery","msg":format!("reference interpreter disagrees with the closed form on {:?} / {:?}: {:?} vs {} {}", case.text, input, other, end, exp_nopos)}));
+                            std::process::exit(2);
+                        }
+                    }
+                }
                 if matches!(prop, "C01" | "C04" | "C07" | "C08") {
                     if let Some(re) = v.end {
                         if re != *end {
@@ -261,6 +270,15 @@ fn single(opts: &Opts, case: &Case, entry: &Entry, sink: &mut Sink) {
             }
             (Err(()), Real::Err { pos, spec }) => {
                 sink.rejected += 1;
+                if prop == "C07" && case.note.contains("closed-form") {
+                    match closed_form_leftrec(&case.grammar, input) {
+                        Some(None) => sink.bump("closed_form_checks", 1),
+                        other => {
+                            emit(json!({"k":"machinery","msg":format!("reference interpreter rejects but the closed form says {:?} on {:?} / {:?}", other, case.text, input)}));
+                            std::process::exit(2);
+                        }
+                    }
+                }
                 if prop == "C10" {
                     sink.nontrivial += 1;
                     sink.sample(|| json!({"grammar": case.text, "input": input, "real_error": format!("{pos} {spec}"),
@@ -406,6 +424,102 @@ fn error_rules(case: &Case, input: &str, r: &Outcome, pos: usize, spec: &str, me
     } else if has_leftrec(&case.grammar) && case.note.contains("recursive-first") && spec == AttemptKind::Sentinel.debug() {
         sink.violation(case, input, "sentinel-leak", "any real failed attempt".into(), spec.to_string(), json!({}));
     }
+}
+
+// ------------------------------------------------------------------------------------------ C07
+
+/// Closed form for `@leftrec A = l:*A t1 | ... | b1 | ...` (recursive alternatives first, tails and bases
+/// made of literals and `N` fields): accepted prefix = first matching base, then greedily the first
+/// matching tail, again and again; tree = left fold. Computed without the interpreter.
+/// Returns None when the grammar is not of that shape, Some(None) when A (hence Root) does not match.
+pub fn closed_form_leftrec(g: &Grammar, input: &str) -> Option<Option<(usize, String)>> {
+    let a = g.rule("A")?;
+    let root = g.rule("Root")?;
+    let Some(Expr::Choice(arms)) = a.body() else { return None };
+    let parts_of = |e: &Expr| -> Vec<Expr> {
+        match e {
+            Expr::Seq(v) => v.clone(),
+            other => vec![other.clone()],
+        }
+    };
+    let mut tails: Vec<Vec<Expr>> = Vec::new();
+    let mut bases: Vec<Vec<Expr>> = Vec::new();
+    let mut names: BTreeSet<String> = BTreeSet::new();
+    for arm in arms {
+        let ps = parts_of(arm);
+        for p in &ps {
+            if let Expr::Ref { name: FieldName::Named(n), .. } = p {
+                names.insert(n.clone());
+            }
+        }
+        match ps.first() {
+            Some(Expr::Ref { rule, name: FieldName::Named(n), .. }) if rule == "A" && n == "l" => tails.push(ps[1..].to_vec()),
+            _ => bases.push(ps),
+        }
+    }
+    // match a list of literal / N-field parts at pos
+    fn m(parts: &[Expr], input: &str, mut pos: usize) -> Option<(usize, Vec<(String, String)>)> {
+        let mut fields = Vec::new();
+        for p in parts {
+            match p {
+                Expr::Lit { chars, .. } => {
+                    let s: String = chars.iter().map(|c| c.c).collect();
+                    if input[pos..].starts_with(&s) {
+                        pos += s.len();
+                    } else {
+                        return None;
+                    }
+                }
+                Expr::Ref { name: FieldName::Named(n), rule, .. } if rule == "N" => {
+                    if input[pos..].starts_with('n') {
+                        fields.push((n.clone(), "\"n\"".to_string()));
+                        pos += 1;
+                    } else {
+                        return None;
+                    }
+                }
+                _ => return None,
+            }
+        }
+        Some((pos, fields))
+    }
+    let render = |fields: &[(String, String)]| -> String {
+        let body: Vec<String> = names
+            .iter()
+            .map(|n| {
+                let vals: Vec<String> = fields.iter().filter(|(f, _)| f == n).map(|(_, v)| v.clone()).collect();
+                format!("{n}:[{}]", vals.join(","))
+            })
+            .collect();
+        format!("A{{{}}}", body.join(","))
+    };
+    let mut cur: Option<(usize, String)> = None;
+    for b in &bases {
+        if let Some((end, fields)) = m(b, input, 0) {
+            cur = Some((end, render(&fields)));
+            break;
+        }
+    }
+    let Some((mut end, mut tree)) = cur else { return Some(None) };
+    'grow: loop {
+        for t in &tails {
+            if let Some((e2, mut fields)) = m(t, input, end) {
+                if e2 > end {
+                    fields.push(("l".into(), tree.clone()));
+                    tree = render(&fields);
+                    end = e2;
+                    continue 'grow;
+                }
+            }
+        }
+        break;
+    }
+    // Root = a:A  or  a:A $
+    let needs_eoi = matches!(root.body(), Some(Expr::Seq(v)) if v.iter().any(|p| matches!(p, Expr::Eoi)));
+    if needs_eoi && end != input.len() {
+        return Some(None);
+    }
+    Some(Some((end, format!("Root{{a:[{tree}]}}"))))
 }
 
 // ------------------------------------------------------------------------------------------ C05
